@@ -104,6 +104,10 @@ impl Shell {
             if let Some(job) = self.jobs.get_mut(&i) {
                 if job.gid == gid {
                     job.pids_stopped.remove(&pid);
+                    if job.status == "Stopped" {
+                        // no longer all of its processes are stopped
+                        job.status = "Running".to_string();
+                    }
                     idx_found = i;
                     break;
                 }
